@@ -310,6 +310,9 @@ class Processor:
         else:
             new_value = value
 
+        if not self.has(key):
+            raise KeyError(f"Cannot set unknown parameter {key!r}.")
+
         obj, att = _get_obj_att(self, key)
 
         if isinstance(obj, dict) and att in obj:
